@@ -51,6 +51,8 @@ func init() {
 			{"C15.name-families", ruleC15NameFamilies, ""},
 			{"C15.curseg-live", ruleC15CurSegLive, ""},
 			{"C15.remove-order", ruleC15RemoveOrder, ""},
+			{"C15.thresholds", ruleC15Thresholds, ""},
+			{"C15.close-all-segments", ruleCloseOrder, ""},
 		},
 		Explanation: "Decides: (name-families) by abstract evaluation of every file-name expression reaching FileSystem.OpenFile/Remove/Rename through the call string, every removed name family is one the package creates, and every per-segment family that is created (segment file, its .pmt side file) is removed by removeSegment; recovery backups are removed; (curseg-live) every I/O through datalog.curSeg is behind the test '!curSeg.meta.Full' or a swapSegment, so a current segment that compaction sealed, closed and removed is never used; (remove-order) a segment is forgotten and closed before its files are unlinked, compact() returns nil only after removeSegment, Compact counts a segment only after compact() returned nil. NOT decided: boundedness of directory size, descriptors and mappings over time.",
 		Assumptions: commonAssumptions,
@@ -113,6 +115,7 @@ func init() {
 			{"C14.no-alias-out", ruleC14NoAliasOut, ""},
 			{"C14.no-retain-in", ruleC14NoRetainIn, ""},
 			{"C14.copy-inside-lock", ruleC14CopyInsideLock, ""},
+			{"C14.fresh-results", ruleC14Fresh, ""},
 		},
 		Explanation: "Decides, within a whole-package field-based value-flow model (slicing, phis, tuples, struct fields, closure cells, parameters/returns through the call graph with VTA-resolved callbacks; append/copy semantics modelled; package pogreb uses neither unsafe nor reflection): (no-alias-out) memory returned by fs.File.Slice never reaches a result of an exported function and is never stored in any struct field; (no-retain-in) byte-slice parameters of exported functions are never stored in a struct field or package variable, encodeRecord returns a fresh buffer, fs Write/WriteAt implementations do not keep their buffer; (copy-inside-lock) every read of Slice memory (cloneBytes, append, copy, bytes.Equal) happens with DB.mu held on every path from every API entry. What is assumed is the flow model, not a sample of histories.",
 		Assumptions: append([]string{"value-flow model: no aliasing through third-party code; append copies byte elements; copy/bytes.Equal/hashing only consume"}, commonAssumptions...),
@@ -239,6 +242,7 @@ func init() {
 			{"C16.reject-before-effect", ruleC16Reject, ""},
 			{"C16.match-equal", ruleC01MatchEqual, ""},
 			{"C16.layout", ruleRecordLayout, ""},
+			{"C16.record-validity", ruleC08Gates, ""},
 			{"C16.sizes", ruleKernelShapes("pogreb.encodedRecordSize", "(pogreb.slot).kvSize", "(*pogreb.datalog).readKey", "(*pogreb.datalog).readKeyValue"), ""},
 		},
 		Explanation: "Decides: (narrowing) every narrowing or sign-changing conversion of a non-constant integer in package pogreb is one of the reviewed sites with a stated bound (guard in Put, bounded decoded source, segment-size guard, comparison idiom backed by the full key comparison), no arithmetic on non-constants is carried out in a type narrower than 32 bits except the reviewed index.level; (const-relations) MaxKeyLength = 65535 fits the 16-bit fields, MaxValueLength = 512 MiB fits the 31-bit field, a maximal record fits the 32-bit offsets, segment ids fit 16 bits; (reject-before-effect) every call made by Put (hashing, locking, log append, index update) is reachable only after both limits were checked against those constants; look-ups compare the full key after the truncated length compare (match-equal); record length fields are laid out as documented (layout). NOT decided: byte-exact round trip of every admissible size through restart and recovery.",
